@@ -1,6 +1,6 @@
 (* Executable comparison for C16 case files. *)
 From Coq Require Import List String Ascii NArith Bool Arith.
-From DM Require Import Base.Util Base.Str Base.StrOrder Base.Paging Model.LocalFS.
+From DM Require Import Base.Util Base.Str Base.StrOrder Base.Paging Base.Listing Model.LocalFS.
 Import ListNotations.
 Open Scope list_scope.
 
